@@ -20,7 +20,7 @@ def split(s):
     return (m.group(1), int(m.group(2))) if m else (s, 0)
 
 
-def render(ead, order=None, continuation=None, comments=False, models="after"):
+def render(ead, order=None, continuation=None, comments=False, models="after", reverse_conns=False):
     """order: permutation of item indices; continuation: break lines after that many tokens;
     models: 'before' | 'after' | 'none' (black boxes never declared)."""
     lines = []
@@ -51,7 +51,8 @@ def render(ead, order=None, continuation=None, comments=False, models="after"):
             lines.append("# item %d" % i)
         k = it["kind"]
         if k in ("subckt", "gate"):
-            emit(["." + k, it["model"]] + ["%s=%s" % (f, a) for f, a in it["conns"]])
+            conns = list(reversed(it["conns"])) if reverse_conns else it["conns"]
+            emit(["." + k, it["model"]] + ["%s=%s" % (f, a) for f, a in conns])
         elif k == "names":
             emit([".names"] + list(it["ins"]) + [it["out"]])
             for c in it.get("covers", ()):
@@ -139,4 +140,14 @@ def expected(ead, models="after"):
                     pp.setdefault(base, [direction, 0])
                     pp[base][1] = max(pp[base][1], idx + 1)
             prim[m["name"]] = {k: tuple(v) for k, v in pp.items()}
-    return {"insts": insts, "nets": part, "ports": {k: tuple(v) for k, v in ports.items()}, "primitives": prim}
+    # black boxes that are never declared: ports and widths follow from the uses (unconn bits included)
+    declared = set(prim)
+    inferred = {}
+    for it in ead["items"]:
+        if it["kind"] in ("subckt", "gate") and it["model"] not in declared:
+            pp = inferred.setdefault(it["model"], {})
+            for f, a in it["conns"]:
+                fb, fi = split(f)
+                pp[fb] = max(pp.get(fb, 0), fi + 1)
+    return {"insts": insts, "nets": part, "ports": {k: tuple(v) for k, v in ports.items()}, "primitives": prim,
+            "inferred": inferred}
